@@ -89,6 +89,13 @@ CHECKS.update({
             "step, deep comparison of the input datasets before/after the run",
             "num_scales 2-4, scale_factor 2-3, marge 0-3, sizes not divisible by the factor, mono/multiband, masks", "3 C15"),
 })
+CHECKS.update({
+    "C18": ("metamorphic monitor over schedules and histories: product digests of the same cases compared across worker "
+            "processes started with NUMBA_NUM_THREADS 1/2/3/4/8/16, PANDORA_NUMBA_PARALLEL=False and without the harness's cache "
+            "patch, across repetitions and fresh/reused machines, and across histories interleaving other pipelines on other "
+            "machines; input datasets digested before/after every run",
+            "schedules sampled (thread counts, load, repetitions), not enumerated", "3 C18"),
+})
 NOTES = {}
 
 def main():
